@@ -216,4 +216,37 @@ theorem union_projections (a : Tree w L) (b : Tree w R) (hwa : HasWF a) (hwb : H
   rw [union_spec a b hwa hwb]
   exact unionS_lslots _ _ _ _ _ (Nat.le_refl _)
 
+/-! ### counting law -/
+
+/-- is the item a `Both`? -/
+def UV.isBoth : UV w L R → Bool
+  | .both _ _ _ => true
+  | _ => false
+
+/-- counting law of the merge: every entry of either list is accounted for by exactly one item,
+a `both` item accounting for two entries -/
+theorem unionS_length (fL : Pfx w → Lpm w R) (fR : Pfx w → Lpm w L) (A : KL w L) (B : KL w R) :
+    (unionS fL fR A B).length + (unionS fL fR A B).countP UV.isBoth = A.length + B.length := by
+  fun_induction unionS fL fR A B with
+  | case1 bs =>
+    have : (bs.map (mkRight fR)).countP UV.isBoth = 0 := by
+      rw [List.countP_eq_zero]; intro u hu; rw [List.mem_map] at hu; obtain ⟨b, _, rfl⟩ := hu; simp [mkRight, UV.isBoth]
+    rw [this]; simp only [List.length_map, List.length_nil, Nat.add_zero, Nat.zero_add]
+  | case2 a as =>
+    have : ((a :: as).map (mkLeft fL)).countP UV.isBoth = 0 := by
+      rw [List.countP_eq_zero]; intro u hu; rw [List.mem_map] at hu; obtain ⟨b, _, rfl⟩ := hu; simp [mkLeft, UV.isBoth]
+    rw [this]; simp only [List.length_map, List.length_nil, Nat.add_zero]
+  | case3 a as b bs h ih =>
+    simp only [List.length_cons, List.countP_cons, UV.isBoth, ite_true]; omega
+  | case4 a as b bs h1 h2 ih =>
+    simp only [List.length_cons, List.countP_cons, mkLeft, UV.isBoth] at ih ⊢; simp at ih ⊢; omega
+  | case5 a as b bs h1 h2 ih =>
+    simp only [List.length_cons, List.countP_cons, mkRight, UV.isBoth] at ih ⊢; simp at ih ⊢; omega
+
+/-- `|union(a, b)| + #Both = |a| + |b|` -/
+theorem union_length (a : Tree w L) (b : Tree w R) (hwa : HasWF a) (hwb : HasWF b) :
+    ((union a b).filterMap UItem.view).length + ((union a b).filterMap UItem.view).countP UV.isBoth
+      = a.slotEntries.length + b.slotEntries.length := by
+  rw [union_spec a b hwa hwb]; exact unionS_length _ _ _ _
+
 end PT.C05
